@@ -313,7 +313,7 @@ def gen_evo(rng, u, kind, cfg, two):
 
 def corpus():
     return [
-        # Greedy::add_all stops looking at the batch after the first accepted individual
+        # regression (fixed in 646d0ea): Greedy::add_all used to stop looking at the batch after the first accepted individual
         {'kind': 'greedy', 'cfg': {'sel': 1, 'best': []}, 'two': False, 'seed': 1,
          'ops': [{'op': 'add_all', 'xs': [[1, 5, 0, 1], [2, 3, 0, 1]]}, {'op': 'select', 'draws': [], 'hits': []}]},
         {'kind': 'greedy', 'cfg': {'sel': 2, 'best': [[1, 9, 0, 1]]}, 'two': False, 'seed': 1,
@@ -608,8 +608,8 @@ MANIFEST_TEXT = ('Machine-checked proof (Coq, no axioms) over an executable mode
                  'arbitrary predicate / truncate, selection with index oracle and the Slow-speed size rule) and Rosomaxa (elite + '
                  'comparable-with-best filter + Initial/Exploration/Exploitation phase machine, network abstracted to a bag of offered '
                  'individuals): for every total preorder and every history of add / add_all / on_generation / select / ranked from a valid '
-                 'configuration, the first ranked individual is no worse than every offered one (Elitism, Rosomaxa; for Greedy only for '
-                 'individuals offered singly — its add_all is refuted by a witness), ranked is sorted, size <= configured bound, selections are '
+                 'configuration, the first ranked individual is no worse than every offered one (all three populations; the '
+                 'Greedy::add_all short-circuit the model used to refute was repaired in 646d0ea), ranked is sorted, size <= configured bound, selections are '
                  'offered individuals and non-empty when the population is, phases only move forward, and the evolution loop seeded through '
                  'add never ends with a worse head. The model is tied to /repo on every run: the same histories run through the real '
                  'populations via the public HeuristicPopulation trait (integer-keyed solution type, scripted Random) and through the model '
